@@ -25,7 +25,7 @@ RULE = ("input = constructed lines (filler bytes that cannot start or continue a
         "lines, > 16 MiB, 64 KiB lines). Sub-check context: lines of canonical dates, date-times and times "
         "(the default output of dconv) each wrapped in hostile context - followed by . , ; : ) x, an "
         "unfinished time (' 12:xx', 'T12:', ' 12:99', ' 24:00:01'), preceded by brackets / letters - and "
-        "near-miss junk (12:, 99:99, 2020-x1-02, v1.2.3 ...); oracle: dconv -S without a format is the "
+        "spans (09:00:00-17:30:00, 2020-01-02:2020-03-04), near-miss junk (12:, 99:99, 2020-x1-02, v1.2.3 ...); oracle: dconv -S without a format is the "
         "identity on such text. Non-trivial: a piece boundary inside a line and an input "
         "larger than one window fill")
 ASSUMPTIONS = ["NUL bytes are not generated (lines are C strings by design)",
@@ -359,7 +359,14 @@ def gen_ctx_line(rnd, B):
         sec = rnd.choice((0, 1, 59, 3599, 3600, 43200, 86399, rnd.randrange(86400)))
         kind = rnd.choice(("d", "d", "dt", "t"))
         tok = {"d": R.f_ymd(n), "dt": R.f_ymd(n) + "T" + R.hms(sec), "t": R.hms(sec)}[kind]
-        after = rnd.choice(AFTER_D if kind == "d" else AFTER_T)
+        if kind in ("d", "t") and rnd.random() < 0.25:
+            # a span: two values with nothing but one separator between them
+            n2 = max(R.NMIN + 10, min(910675 - 10, n + rnd.randrange(-400, 400)))
+            sec2 = rnd.randrange(86400)
+            sepc = rnd.choice(":/,|~" if kind == "d" else "-/,|~")
+            tok = tok + sepc + (R.f_ymd(n2) if kind == "d" else R.hms(sec2))
+            kind = kind + "span" + sepc
+        after = rnd.choice(AFTER_D if kind[0] == "d" and kind != "dt" else AFTER_T)
         before = rnd.choice(BEFORE)
         trail = rnd.choice((" ", " ", "", " "))
         if after[-1:] in ".:+-" or after[-1:].isdigit():
